@@ -617,8 +617,13 @@ def run(ctx):
             ctx.violate('resp.stream_close_count', 'close() called %d times on an unread stream' % cnt.closes,
                         why='unread', **sig)
     # completion
-    if asgi and not faulted and not complete:
-        ctx.violate('asgi.monitor.incomplete', 'response not finished: state %s' % mon.state, **sig)
+    hard_fault = asgi and (conn.send_failed or conn.send_cancelled or cnt.raised)
+    if asgi and not hard_fault and app_exc is None and not complete:
+        # also after a client disconnect that the server merely swallows (no send() ever failed):
+        # the application's event sequence must still be terminated
+        ctx.violate('asgi.monitor.incomplete', 'response not finished: state %s%s' % (
+            mon.state, ' (client disconnected during SSE; sends are swallowed, none failed)' if sse_disc else ''),
+            after_disconnect=bool(sse_disc), **sig)
 
 
 def code_to_default(s):
